@@ -350,7 +350,7 @@ pub fn generate(ctx: &mut GenCtx) {
             }
         }
     }
-    let n_esc = if ctx.thorough { 4000 } else { 300 };
+    let n_esc = if ctx.thorough { 20000 } else { 300 };
     for _ in 0..n_esc {
         let s = gen_lex(ctx, &classes);
         ctx.emit(&format!("e {}", hex(&s)));
@@ -365,7 +365,7 @@ pub fn generate(ctx: &mut GenCtx) {
     }
 
     // 2. datasets
-    let rounds = if ctx.thorough { 600 } else { 60 };
+    let rounds = if ctx.thorough { 3000 } else { 60 };
     for round in 0..rounds {
         let outside = round % 6 == 5;
         let tg = build_termgen(ctx, outside);
